@@ -61,7 +61,8 @@ fn q(s: &str) -> String {
 impl Case {
     pub fn sexp(&self) -> String {
         let f: Vec<String> = self.file.iter().map(|e| format!("(f {} {} {})", e.table.clone().unwrap_or("-".into()), e.key, e.val.sexp())).collect();
-        let c: Vec<String> = self.cli.iter().map(|e| format!("(r {} {})", e.key, q(&e.text))).collect();
+        // the command line as typed: every `--config` argument verbatim, the stray one (no `=`) among them
+        let c: Vec<String> = self.cli_args().iter().map(|a| format!("(a {})", q(a))).collect();
         let a: Vec<String> = self.attrs.iter().map(|e| format!("(r {} {})", e.key, q(&e.text))).collect();
         format!("(cfg {} ({}) ({}) ({}))", self.target, f.join(" "), c.join(" "), a.join(" "))
     }
